@@ -42,12 +42,12 @@ theorem C01_fuel_mono (code : List Instr) : ∀ (m k : Nat) (s : VM), (runN code
       simp only [hs] at h
       exact C01_fuel_mono code m k' s' h (by omega)
 
-/-- The executable `vmRun` (fuel = code size + 1) used by the driver: whenever it does not report `outOfFuel`, its answer
+/-- The executable `vmRun` (generous fixed fuel) used by the driver: whenever it does not report `outOfFuel`, its answer
     is the Python reading. -/
 theorem C01_vmRun (p : Prog) (code : List Instr) (hc : compile p = some code) (hns : NoShadow p)
     (hclean : (runW p).2 = true) (hfuel : (vmRun code).exit ≠ .outOfFuel) : vmRun code = runPy p := by
   obtain ⟨n, hn⟩ := C01_stage1 p code hc hns hclean
-  have h1 := C01_fuel_mono code (codeSize code + 1) (max n (codeSize code + 1)) VM.init hfuel (by omega)
+  have h1 := C01_fuel_mono code (1000 * codeSize code + 100000) (max n (1000 * codeSize code + 100000)) VM.init hfuel (by omega)
   rw [hn _ (by omega)] at h1
   exact h1.symm
 
